@@ -57,7 +57,9 @@ def main():
             'guard clauses, changed message texts, added classes/entries); each keeps the 406 tests green and passes its',
             'own before/after demo. `tools/try_harmless.py` runs the checks of the touched area against each. A check',
             'that alarms here raises a false alarm (always of the `no-failing-input-found` kind: a translator refused a',
-            'construct, so an obligation over generated definitions could not be re-established).', '',
+            'construct, so an obligation over generated definitions could not be re-established).',
+            'The table shows the checks as they are now; the first verdicts of the refactorings that did alarm, and what was',
+            'changed in response, are kept in `harmless/HISTORY.md`.', '',
             '| refactoring | confirmed harmless | checks run | false alarms |', '|---|---|---|---|']
     for f in sorted((V / 'harmless').glob('*/meta.json')):
         m = json.loads(f.read_text())
